@@ -47,7 +47,7 @@ func genC20(rt *rapid.T) interface{} {
 		sc.First = rapid.IntRange(0, 6000).Draw(rt, "firstv")
 	}
 	n := rapid.IntRange(1, tierScale(9)).Draw(rt, "nops")
-	kinds := []string{"restart", "restart", "restart", "pair-setup", "pair-add", "pair-add-again", "unpair", "unpair", "unpair-unknown", "set", "set", "probe"}
+	kinds := []string{"restart", "restart", "restart", "pair-setup", "pair-add", "pair-add-again", "unpair", "unpair", "unpair-unknown", "set", "set", "probe", "pair-race", "pair-race"}
 	for i := 0; i < n; i++ {
 		op := C20Op{Kind: rapid.SampledFrom(kinds).Draw(rt, "kind"), Arg: rapid.IntRange(0, 11).Draw(rt, "arg")}
 		if op.Kind == "restart" && rapid.Bool().Draw(rt, "bigarg") {
@@ -388,6 +388,79 @@ func runC20(t *testing.T, sci interface{}) *Outcome {
 						pairings = rest
 					}
 					checkTXT(when + " after " + op.Kind)
+				}
+			case "pair-race":
+				// two connections of one admin controller at the same time: one adds a controller, the
+				// other removes it (if it is there yet) and then every other pairing. Whatever order the
+				// accessory processes them in: once both are done it is discoverable exactly when nothing
+				// is stored.
+				if len(pairings) == 0 {
+					continue
+				}
+				admin := pairings[op.Arg%len(pairings)]
+				nctl++
+				added := ctl{id: fmt.Sprintf("controller-%d", nctl), kp: w.Keypair()}
+				known := append([]ctl{added}, pairings...)
+				d1, d2 := false, false
+				o.Stats["fault.concurrent_pairing_changes"]++
+				pairingsReq := func(cl *ref.Client, method byte, c ctl) {
+					items := []ref.TLV{{Tag: ref.TagState, Val: []byte{1}}, {Tag: ref.TagMethod, Val: []byte{method}}, {Tag: ref.TagIdentifier, Val: []byte(c.id)}}
+					if method == 3 {
+						items = append(items, ref.TLV{Tag: ref.TagPublicKey, Val: c.kp.Pub}, ref.TLV{Tag: ref.TagPermission, Val: []byte{1}})
+					}
+					cl.Do("POST", "/pairings", ref.CTypeTLV, ref.TLVEncode(items))
+				}
+				s.Go("admin", func() {
+					defer func() { d1 = true }()
+					if cl, _, err := w.verified("admin", admin.id, admin.kp); err == nil {
+						pairingsReq(cl, 3, added)
+						cl.Conn.Close()
+					}
+				})
+				s.Go("admin2", func() {
+					defer func() { d2 = true }()
+					if cl, _, err := w.verified("admin2", admin.id, admin.kp); err == nil {
+						pairingsReq(cl, 4, added)
+						if op.Arg%2 == 0 {
+							for _, c := range pairings {
+								if c.id != admin.id {
+									pairingsReq(cl, 4, c)
+								}
+							}
+							pairingsReq(cl, 4, admin)
+						}
+						cl.Conn.Close()
+					}
+				})
+				if err := s.Run(func() bool { return (d1 && d2) || fail != "" }); err != nil {
+					o.Harness = err.Error()
+					goto end
+				}
+				// let the accessory finish what is still in flight, then take the store as it is
+				if err := s.Run(nil); err != nil {
+					o.Harness = err.Error()
+					goto end
+				}
+				if !(d1 && d2) {
+					violate("stalled", "%s: the two admin connections did not finish", when)
+					break
+				}
+				if es, err := w.Tr.VerifDatabase().Entities(); err != nil {
+					violate("entities-unreadable", "%s: %v", when, err)
+				} else {
+					var now []ctl
+					for _, c := range known {
+						for _, e := range es {
+							if e.Name == c.id && bytes.Equal(e.PublicKey, c.kp.Pub) {
+								now = append(now, c)
+							}
+						}
+					}
+					if len(es) != len(now)+1 {
+						violate("pairing-count", "%s: %d entities are stored, %d of them are controllers somebody added", when, len(es), len(now))
+					}
+					pairings = now
+					checkTXT(when + " after both admin connections finished")
 				}
 			case "set":
 				// value changes must never bump the configuration number
